@@ -48,18 +48,56 @@ func join(dir, local string) string {
 	return dir + "/" + local
 }
 
-// ref spells the full node name target as a reference written in package dir.
-// style 0: absolute "//name"; style 1: relative when possible.
-func ref(dir, target string, style int) string {
-	if style == 1 {
-		if dir == "" {
-			return target
-		}
-		if strings.HasPrefix(target, dir+"/") {
-			return strings.TrimPrefix(target, dir+"/")
+// messy rewrites a clean slash-separated path into another spelling of the
+// same path: doubled slashes, "." elements, "x/.." detours, a trailing "/."
+// or "/".
+func messy(p string, r *hx.Rng) string {
+	if r == nil || p == "" {
+		return p
+	}
+	segs := strings.Split(p, "/")
+	var out []string
+	for _, sg := range segs {
+		switch r.Intn(8) {
+		case 0:
+			out = append(out, ".", sg)
+		case 1:
+			out = append(out, "zz", "..", sg)
+		case 2:
+			out = append(out, "", sg) // "//"
+		default:
+			out = append(out, sg)
 		}
 	}
-	return "//" + target
+	q := strings.Join(out, "/")
+	switch r.Intn(8) {
+	case 0:
+		q += "/."
+	case 1:
+		q += "/"
+	}
+	return q
+}
+
+// ref spells the full node name target as a reference written in package dir.
+// style 0: absolute "//name"; 1: relative when possible; 2: absolute with one
+// slash; 3: relative with a leading "./".
+func ref(dir, target string, style int, r *hx.Rng) string {
+	rel := ""
+	if dir == "" {
+		rel = target
+	} else if strings.HasPrefix(target, dir+"/") {
+		rel = strings.TrimPrefix(target, dir+"/")
+	}
+	switch {
+	case style == 1 && rel != "":
+		return messy(rel, r)
+	case style == 3 && rel != "":
+		return "./" + messy(rel, r)
+	case style == 2:
+		return "/" + messy(target, r)
+	}
+	return "//" + messy(target, r)
 }
 
 func refs(dir string, targets []string, r *hx.Rng) []string {
@@ -67,16 +105,37 @@ func refs(dir string, targets []string, r *hx.Rng) []string {
 	for i, t := range targets {
 		st := 0
 		if r != nil {
-			st = r.Intn(2)
+			st = r.Intn(4)
 		}
-		out[i] = ref(dir, t, st)
+		out[i] = ref(dir, t, st, r)
 	}
 	return out
 }
 
+// spellName writes the local name of a rule in one of several ways that all
+// resolve to dir/local.
+func spellName(local string, r *hx.Rng) string {
+	if r == nil {
+		return local
+	}
+	switch r.Intn(10) {
+	case 0:
+		return "./" + local
+	case 1:
+		return "/" + local
+	case 2:
+		return "q/../" + local
+	case 3:
+		return local + "/."
+	case 4:
+		return "../" + local // cannot escape the package
+	}
+	return local
+}
+
 // bundle declares bundle dir/local depending on the full names deps.
 func bundle(dir, local string, deps []string, r *hx.Rng) Decl {
-	return Decl{K: "bundle", Name: local, Deps: refs(dir, deps, r),
+	return Decl{K: "bundle", Name: spellName(local, r), Deps: refs(dir, deps, r),
 		RName: join(dir, local), RDeps: append([]string{}, deps...)}
 }
 
@@ -94,7 +153,7 @@ func fileSet(dir, local string, files, include []string, r *hx.Rng) Decl {
 	}
 	sort.Strings(sorted)
 	rdeps := append(sorted, include...)
-	return Decl{K: "file_set", Name: local, Files: refs(dir, files, r), Include: include,
+	return Decl{K: "file_set", Name: spellName(local, r), Files: refs(dir, files, r), Include: include,
 		RName: name, RDeps: rdeps, ROuts: []string{name + ".fileset"}}
 }
 
@@ -181,6 +240,62 @@ func corpus() []Case {
 		w.add("p0", bundle("p0", "f.fileset", nil, nil))
 		w.add("p0", bundle("p0", "other", nil, nil))
 		cs = append(cs, w.mk("corpus-dup", "p0/other"))
+	}
+	{ // the same name written in different ways: "x", "./x", "a/../x", "/x", "x/."
+		for _, sp := range []string{"./x", "a/../x", "/x", "x/.", "../x", "//x//"} {
+			w := &ws{roots: []string{"p0"}}
+			w.add("p0", bundle("p0", "x", nil, nil))
+			d := bundle("p0", "x", nil, nil)
+			d.Name = sp
+			w.add("p0", d)
+			cs = append(cs, w.mk("corpus-spelling", "p0/x"))
+		}
+		// across a package and its sub-build: "s/x" here, "x" there
+		w := &ws{roots: []string{"p0"}}
+		w.add("p0", sub("./s/", "p0/s"))
+		d := bundle("p0", "s/x", nil, nil)
+		d.Name = "s/./x"
+		w.add("p0", d)
+		w.add("p0/s", bundle("p0/s", "x", nil, nil))
+		cs = append(cs, w.mk("corpus-spelling", "p0/s/x"))
+		// dependencies written with detours resolve to the same nodes
+		w = &ws{roots: []string{"p0", "p1"}}
+		a := bundle("p0", "a", []string{"p1/b", "p0/c", "p0/c"}, nil)
+		a.Deps = []string{"//p1/./b", "zz/../c", "/p0//c/."}
+		w.add("p0", a)
+		w.add("p0", bundle("p0", "c", nil, nil))
+		w.add("p1", bundle("p1", "b", []string{"p0/c"}, nil))
+		w.files[1].Decls[0].Deps = []string{"/p0/x/../c"}
+		cs = append(cs, w.mk("corpus-spelling", "p0/a"))
+	}
+	{ // a rule named like the output of a file set, declared before and after it
+		for order := 0; order < 4; order++ {
+			w := &ws{roots: []string{"p0", "p1"}}
+			w.src("p0/x.txt")
+			fsd := fileSet("p0", "f", []string{"p0/x.txt"}, nil, nil)
+			clash := bundle("p0", "f.fileset", nil, nil)
+			switch order {
+			case 0:
+				w.add("p0", fsd)
+				w.add("p0", clash)
+			case 1:
+				w.add("p0", clash)
+				w.add("p0", fsd)
+			case 2: // across files: the clash in the package read first
+				c2 := bundle("p1", "f.fileset", nil, nil)
+				c2.Name = "../f.fileset"
+				w.add("p0", fsd)
+				w.add("p1", Decl{K: "bundle", Name: "f", Deps: []string{}, RName: "p1/f"})
+				_ = c2
+				w.add("p0", clash)
+			case 3:
+				w.add("p0", clash)
+				w.add("p0", bundle("p0", "other", nil, nil))
+				w.add("p0", fsd)
+			}
+			w.add("p0", bundle("p0", "free", nil, nil))
+			cs = append(cs, w.mk("corpus-rule-vs-output", "p0/free"))
+		}
 	}
 	for _, sp := range []string{"", ".", "/"} { // unnamed rules
 		w := &ws{roots: []string{"p0"}}
@@ -289,7 +404,7 @@ func randomNodes(r *hx.Rng, n int, fl flaws) (dirs []string, nodes []*rnode, src
 			d = parent + "/" + local
 		}
 		dirs = append(dirs, d)
-		subs[parent] = append(subs[parent], [2]string{spelled, d})
+		subs[parent] = append(subs[parent], [2]string{messy(spelled, r), d})
 	}
 	if fl.selfSub {
 		d := dirs[r.Intn(len(dirs))]
@@ -394,6 +509,9 @@ func randomNodes(r *hx.Rng, n int, fl flaws) (dirs []string, nodes []*rnode, src
 	if fl.dups {
 		a := nodes[r.Intn(n)]
 		b := &rnode{dir: a.dir, local: a.local, kind: 0}
+		if r.Intn(3) == 0 {
+			b.local = "./" + a.local // the same name written differently
+		}
 		if r.Intn(3) == 0 && a.kind == 1 {
 			b.local = a.local + ".fileset"
 		}
@@ -446,7 +564,7 @@ func randomCase(r *hx.Rng, stream string, n int, fl flaws) Case {
 	// targets: 1-3 names, mostly rules, sometimes outputs, sources, nonsense
 	var ts []string
 	for i := 0; i < 1+r.Intn(3); i++ {
-		nd := nodes[r.Intn(len(nodes))]
+		nd := nodes[r.Intn(n)]
 		switch r.Intn(10) {
 		case 0:
 			ts = append(ts, srcs[r.Intn(len(srcs))])
@@ -495,7 +613,7 @@ func permGroup(r *hx.Rng, group int, fl flaws) []Case {
 	dirs, nodes, srcs, subs, roots := randomNodes(r, n, fl)
 	var ts []string
 	for i := 0; i < 1+r.Intn(2); i++ {
-		ts = append(ts, nodes[r.Intn(len(nodes))].name())
+		ts = append(ts, nodes[r.Intn(n)].name())
 	}
 	ts = append(ts, nodes[n-1].name())
 	decls := make([]Decl, len(nodes))
